@@ -740,7 +740,12 @@ MATCHERS = {
                                                     all(p['default'] is not None or p['name'] in [k for k, _ in c['kwargs']]
                                                         for p in fn['params'] if p['kind'] in ('pos', 'posonly', 'kwonly') and p['name'] != 0)),
     'classmethod_decorated_directly': lambda c, fn: c['style'] == 'method_direct' and c['mkind'] == 'class' and c['mode'] == 'pedantic',
-    'receiver_checked_against_varargs': lambda c, fn: bool(call_parts(c)[0]) and has_varpos(fn),
+    # a receiver the first checking pass does not count (no first parameter called self) in front of *args
+    'receiver_checked_against_varargs': lambda c, fn: bool(call_parts(c)[0]) and has_varpos(fn) and fn['first_arg'] != 0,
+    # a defaulted parameter declared before *args that the caller passes positionally
+    'defaulted_param_before_varargs_passed_positionally': lambda c, fn: has_varpos(fn) and any(
+        p['default'] is not None and j < len(c['args'])
+        for j, p in enumerate([q for q in fn['params'] if q['kind'] in ('pos', 'posonly') and q['name'] != 0])),
     # static / class methods are called with the keyword arguments only (_get_return_value): positional values for *args are lost
     'star_elements_dropped_for_static_or_class_method': lambda c, fn: has_varpos(fn) and len(c['args']) > 0
                                                                       and (fn['text']['staticmethod'] or fn['bound'] is not None),
